@@ -146,6 +146,20 @@ type SharedInv struct {
 	Pkg  string
 }
 
+// LockInv: "lockinv (*T).mu protects f g #h :: inv": the fields are only accessed
+// with the mutex held; the invariant (over self) is assumed when the mutex of a
+// pre-existing object is acquired (after forgetting the protected fields: other
+// goroutines may have changed them) and is an obligation at every release.
+type LockInv struct {
+	Recv   string // "erpc.callCmd"
+	Mutex  string
+	Fields []string
+	E      Expr
+	Src    string
+	Pkg    string
+	Props  []string
+}
+
 // FrameSet: a named, parameterised modifies set ("frameset name(p T, ...) = items").
 type FrameSet struct {
 	Name   string
@@ -173,6 +187,7 @@ type ContractDB struct {
 	LibKeeps map[string]bool // library struct types whose fields uncontracted library calls do not modify
 	FrameSets map[string]*FrameSet
 	SharedInv      map[string]*SharedInv
+	LockInvs       map[string]*LockInv // "erpc.callCmd.mu"
 	Enums          []*EnumDecl
 	CallSites      []*CallSitesDecl
 	FuncAlias      map[string]string // "pkg.Var" -> full name of the function the variable is initialised with
@@ -198,7 +213,7 @@ type ContractDB struct {
 
 var clauseRe = regexp.MustCompile(`^(requires|ensures|invariant|assert)(\?)?(\[[^\]]*\])?(!)?\s*(.*)$`)
 
-var topKeywords = map[string]bool{"libkeeps": true, "frameset": true, "shared": true, "funcalias": true, "libframe": true, "enumerates": true, "callsites": true, "zeroglobal": true, "constglobal": true, "writes": true, "covers": true, "func": true, "ext": true, "iface": true, "spec": true, "ghost": true, "axiom": true, "sealed": true, "lemma": true, "pure": true, "class": true, "trusted": true}
+var topKeywords = map[string]bool{"lockinv": true, "libkeeps": true, "frameset": true, "shared": true, "funcalias": true, "libframe": true, "enumerates": true, "callsites": true, "zeroglobal": true, "constglobal": true, "writes": true, "covers": true, "func": true, "ext": true, "iface": true, "spec": true, "ghost": true, "axiom": true, "sealed": true, "lemma": true, "pure": true, "class": true, "trusted": true}
 var subKeywords = map[string]bool{"spawnset": true, "ghostset": true, "property": true, "flags": true, "requires": true, "ensures": true, "modifies": true, "loop": true, "let": true, "params": true}
 
 func firstWord(s string) string {
@@ -505,6 +520,40 @@ func (db *ContractDB) parseFile(path, pkg string) error {
 				db.FrameSets = map[string]*FrameSet{}
 			}
 			db.FrameSets[fsd.Name] = fsd
+		case "lockinv":
+			cur = nil
+			k := strings.Index(rest, "::")
+			if k < 0 {
+				return fail(l, "lockinv (*T).mu [@Cnn] protects f g #h :: inv")
+			}
+			invSrc := strings.TrimSpace(rest[k+2:])
+			e, err := ParseExpr(invSrc)
+			if err != nil {
+				return fail(l, "%v", err)
+			}
+			f := strings.Fields(rest[:k])
+			if len(f) < 2 {
+				return fail(l, "lockinv (*T).mu protects ...")
+			}
+			i := strings.LastIndex(f[0], ".")
+			recv := strings.Trim(f[0][:i], "(*)")
+			if !strings.Contains(recv, ".") {
+				recv = pkg + "." + recv
+			}
+			li := &LockInv{Recv: recv, Mutex: f[0][i+1:], E: e, Src: invSrc, Pkg: pkg}
+			for _, w := range f[1:] {
+				switch {
+				case w == "protects":
+				case strings.HasPrefix(w, "@"):
+					li.Props = append(li.Props, w[1:])
+				default:
+					li.Fields = append(li.Fields, w)
+				}
+			}
+			if db.LockInvs == nil {
+				db.LockInvs = map[string]*LockInv{}
+			}
+			db.LockInvs[recv+"."+li.Mutex] = li
 		case "shared":
 			cur = nil
 			// shared (*T).field ...
